@@ -1107,12 +1107,37 @@ class SymMethod:
         return fn(it, self.o, *args, **kwargs)
 
 
+MAX_SYM_BYTES = 80
+
+
 def m_int_to_bytes(it, x, length=1, byteorder="big", signed=False):
-    if is_sym(length) or is_sym(byteorder) or signed:
-        raise Unsupported("to_bytes with symbolic length/order or signed")
+    if is_sym(byteorder) or signed:
+        raise Unsupported("to_bytes with symbolic order or signed")
+    if isinstance(length, SInt):
+        # symbolic width (bounded): overflow iff x >= 256**length, decided per width value
+        L = length.t
+        if it.ctx.branch(z3.Or(L < 0, L > MAX_SYM_BYTES)):
+            raise Unsupported("to_bytes width outside 0..%d" % MAX_SYM_BYTES)
+        over = z3.Or(x.t < 0, *[z3.And(L == i, x.t >= 256**i) for i in range(MAX_SYM_BYTES + 1)])
+        if it.ctx.branch(over):
+            it.raise_(OverflowError("int too big to convert"))
+        return Rope([Seg("int", x.t, z3.simplify(L), byteorder)])
     if it.ctx.branch(z3.Or(x.t < 0, x.t >= 256**length)):
-        it.raise_(OverflowError("int too big to convert" if True else ""))
+        it.raise_(OverflowError("int too big to convert"))
     return Rope([Seg("int", x.t, length, byteorder)])
+
+
+def m_int_bit_length(it, x):
+    """bit_length of a non-negative symbolic int below 2**(8*MAX_SYM_BYTES): fresh k tied to x by a case split."""
+    if not it.ctx.branch(x.t >= 0):
+        raise Unsupported("bit_length of a negative symbolic int")
+    k = it.ctx.fresh_int("bitlen")
+    nb = 8 * MAX_SYM_BYTES
+    cases = [z3.And(k == 0, x.t == 0)] + [z3.And(k == i, x.t >= 2 ** (i - 1), x.t < 2**i) for i in range(1, nb + 1)]
+    if it.ctx.branch(x.t >= 2**nb):
+        raise Unsupported("bit_length beyond the modelled width")
+    it.ctx.assume(z3.Or(*cases))
+    return SInt(k)
 
 
 def m_rope_ljust(it, r, width, fill=b" "):
@@ -1191,6 +1216,7 @@ def m_abslist_append(it, lst, x):
 
 _SYM_METHODS = {
     (SInt, "to_bytes"): m_int_to_bytes,
+    (SInt, "bit_length"): m_int_bit_length,
     (Rope, "ljust"): m_rope_ljust,
     (Rope, "hex"): m_rope_hex,
     (TokStr, "replace"): m_tok_replace,
@@ -1598,7 +1624,26 @@ def _install_re_models(models):
         models[getattr(_re, n)] = _re_apply(n)
 
 
+def _minmax(pick_first_if):
+    def model(it, args, kwargs):
+        if kwargs:
+            raise Unsupported("min/max with keyword arguments")
+        xs = list(args[0]) if len(args) == 1 else list(args)
+        if not any(is_sym(x) for x in xs):
+            return (min if pick_first_if == "lt" else max)(xs)
+        best = xs[0]
+        for x in xs[1:]:
+            c = term(x) < term(best) if pick_first_if == "lt" else term(x) > term(best)
+            if it.ctx.branch(c):
+                best = x
+        return best
+
+    return model
+
+
 BASE_MODELS = {
+    min: _minmax("lt"),
+    max: _minmax("gt"),
     len: model_len,
     bytes: model_bytes,
     math.ceil: model_ceil,
